@@ -52,6 +52,7 @@ type Node struct {
 	Store    blockchain.IChainStore
 	Chain    *blockchain.BlockChain
 	Arbiters *state.ArbitratorsMock
+	Ckp      *checkpoint.Manager
 
 	tip    *blockchain.BlockNode
 	blocks []*savedBlock
@@ -112,7 +113,7 @@ func New(dir string, o Options) (*Node, error) {
 		store.Close()
 		return nil, err
 	}
-	n := &Node{Dir: dir, Params: params, Store: store, Chain: chain}
+	n := &Node{Dir: dir, Params: params, Store: store, Chain: chain, Ckp: ckp}
 	committee.RegisterFuncitons(&crstate.CommitteeFuncsConfig{
 		GetTxReference:                   chain.UTXOCache.GetTxReference,
 		GetUTXO:                          store.GetFFLDB().GetUTXO,
